@@ -113,6 +113,16 @@ def main():
 
     # ---- 2. correspondence ------------------------------------------------------------------
     cases = load_corpus(pid) + mod.generate(tier, rng)
+    if tier == "thorough":
+        # deeper exploration: generators that draw from the seeded PRNG are run several more rounds (the PRNG state carries
+        # on, so every round draws new systems / values / histories); cases already present are dropped
+        seen = {common.case_hash(c) for c in cases}
+        for _ in range(int(getattr(mod, "THOROUGH_ROUNDS", 1)) - 1):
+            for c in mod.generate(tier, rng):
+                h = common.case_hash(c)
+                if h not in seen:
+                    seen.add(h)
+                    cases.append(c)
     observations = []
     for c in cases:
         try:
